@@ -114,7 +114,12 @@ def check(pid, tier):
 def verus_lane(pid, tier, cov, ledger, findings, assumptions):
     ck = _ck()
     out = {'violations': [], 'undecided': [], 'known': []}
-    vd = ck.verus_verdict(tier)
+    try:
+        vd = ck.verus_verdict(tier)
+    except (W.WeaveError, V.ScanError) as e:
+        out['undecided'].append('weaving failed (Verus lane undecided): %s' % str(e)[:300])
+        cov['lanes'].append('verus (not run: weaving failed)')
+        return out
     w, res, diags, inv, fns = vd['w'], vd['res'], vd['diags'], vd['inv'], vd['fns']
     byid = {f.id: f for f in fns}
     obs = ck.property_obligations(vd, pid)
@@ -196,6 +201,10 @@ def verus_lane(pid, tier, cov, ledger, findings, assumptions):
     samples = []
     fn_under = set()
     open_f = {(f['property'], f['obligation']): f for f in findings.get('open', [])}
+    ledger_fns = set(o.split('#')[0] for o in ledger)
+    new_fns = sorted(set(f.name for f in fns if f.mode == 'exec' and f.has_body and not f.external and f.id not in ledger_fns
+                         and not (f.trait_impl and f.trait_impl.startswith('decl:'))))
+    wlines = w.text.split('\n')
     for (ob_id, fid, kind, clauses, support) in obs:
         f = byid[fid]
         fn_under.add(fid)
@@ -218,6 +227,11 @@ def verus_lane(pid, tier, cov, ledger, findings, assumptions):
                 continue
             if lost_here:
                 out['undecided'].append('%s fails but proof hints lost their anchor (%s): not a verdict' % (ob_id, lost_here[0]))
+                continue
+            body = '\n'.join(wlines[f.lo - 1:f.hi])
+            called_new = [n for n in new_fns if re.search(r'\b%s\s*\(' % re.escape(n), body) and n != f.name]
+            if called_new:
+                out['undecided'].append('%s fails, but the function calls %s which has no contract (new since the baseline): the modular proof cannot see through it -- not a verdict' % (ob_id, ', '.join(called_new)))
                 continue
             if ob_id not in ledger:
                 out['undecided'].append('%s fails but never verified on the baseline tree (not in ledger): unfinished proof, not a verdict' % ob_id)
